@@ -138,6 +138,25 @@ PLANS = {
                              "events_seen_by_buffered_reader": (o["runs"][0]["buffered"]["evs"][:6] if o.get("runs") else None)},
         "assumptions": EVAL_ASSUME,
     },
+    "C09": {
+        "mc": {"quick": [{"module": "MCCap", "cfg": "cfg/MCCap.quick.cfg"}],
+               "thorough": [{"module": "MCCap", "cfg": "cfg/MCCap.thorough.cfg"}]},
+        "drive": {"quick": [{"args": ["cap", "-seed", "{seed}", "-tier", "quick"]}],
+                  "thorough": [{"args": ["cap", "-seed", "{seed}", "-tier", "thorough"], "timeout": 3400}]},
+        "judge": {"module": "JudgeCap", "cfg": "JudgeCap.cfg"},
+        "replay_args": ["cap", "-seed", "1", "-tier", "quick"],
+        "engine": "capacity",
+        "rule": "one case = (family instance: fan / nested fan / right- and left-leaning chain / comparison fan / if chain, "
+                "with operand counts around 127 incl. reached only by ReduceNesting, node counts around 16383 and 32767, "
+                "stack needs around 8 and 16; option subset; events off / ReportEvent / Debug); judged with the REAL limits: "
+                "beyond a limit => Compile error (never a panic), up to the limits => compiles and Eval/TryEval = closed-form "
+                "value, observed stack high-water (LOOP snapshots) <= maxStackSize <= allocated; non-trivial = within a few "
+                "units of a limit or of a stack class boundary",
+        "sample": lambda o: {"desc": o["desc"], "mask": o["m"], "events": o["ev"], "compile": o["cout"],
+                             "max_stack": o.get("max"), "runs": o.get("runs")},
+        "assumptions": ["closed forms of Capacity.tla (proved against the model by MCCap on small parameters) describe the families",
+                        "TLC, Json module, harness recording"],
+    },
 }
 
 ENGINES = [
@@ -146,4 +165,7 @@ ENGINES = [
      "kind_free_text": "TLA+ specification of optimizer, layout and the Eval/TryEval stack machines; TLC bounded model checking; "
                        "TLC trace validation of observations recorded by the Go harness from the real code"},
 ]
+ENGINES.append({"name": "capacity", "path": "spec/Capacity.tla, MCCap.tla, JudgeCap.tla + harness/fam_cap.go",
+                "serves_properties": ["C09"],
+                "kind_free_text": "scaled-down limits model-checked; real limits judged by closed forms"})
 NOT_APPLICABLE = {}
